@@ -953,3 +953,38 @@ def _smart_deref(eng, st, args, ci):
 def _refcell_borrow(eng, st, args, ci):
     r = args[0]
     return Ref(r.key, r.projs + (('field', 0),), ci.func.endswith('borrow_mut'))
+
+
+# ---------------------------------------------------------------- by-value iteration over Vec / HashMap (concrete length)
+
+@intrinsic(r'^<(std::vec::)?Vec<.*> as (std::iter::)?IntoIterator>::into_iter$', 'Vec::into_iter (by value)', prio=3)
+def _vec_into_iter(eng, st, args, ci):
+    v = args[0]
+    if not isinstance(v, Seq):
+        raise Unsupported('Vec::into_iter on %r' % (v,))
+    cell = eng.ref_to(st, v, True, 'owned')
+    return Tup([cell, bv_const(0, 'usize')], 'OwnedIter')
+
+
+@intrinsic(r'^<(std::collections::)?HashMap<.*> as (std::iter::)?IntoIterator>::into_iter$', 'HashMap::into_iter (by value; harness entry list)', prio=3)
+def _hm_into_iter(eng, st, args, ci):
+    hm = args[0]
+    if not (isinstance(hm, Tup) and hm.name == 'HashMap'):
+        raise Unsupported('HashMap::into_iter on %r' % (hm,))
+    cell = eng.ref_to(st, hm.items[0], True, 'owned')
+    return Tup([cell, bv_const(0, 'usize')], 'OwnedIter')
+
+
+@intrinsic(r'^<std::vec::IntoIter<.*> as (std::iter::)?Iterator>::next$|^<std::collections::hash_map::IntoIter<.*> as (std::iter::)?Iterator>::next$', 'IntoIter::next (by value)', prio=3)
+def _owned_next(eng, st, args, ci):
+    itref = args[0]
+    it = eng.read_ref(st, itref)
+    if not (isinstance(it, Tup) and it.name == 'OwnedIter'):
+        raise Unsupported('IntoIter::next on %r' % (it,))
+    cell, pos = it.items
+    seq = eng.read_ref(st, cell)
+    p = pos.concrete()
+    if p >= len(seq.items):
+        return NONE
+    eng.write_ref(st, itref, Tup([cell, bv_const(p + 1, 'usize')], 'OwnedIter'))
+    return some(seq.items[p])
